@@ -19,7 +19,8 @@ VERDICT_FN = "verdict_C12_any"
 CHUNK = 100
 DRIVER_ERR = eng.DRIVER_ERR
 K = dict(attr_guards=0.35, cbs=0.55, conv=0.4, guards=0.5, guard_max=2, validators=0.3, listeners=(1, 4), multi_prov=0.55, sends=0.05,
-         raises=0.03, multi_event=0.4, p_async=0.0, rtc_false=0.1, ops=(3, 10), p_construct=0.0, share_groups=0.1)
+         raises=0.03, multi_event=0.4, p_async=0.0, rtc_false=0.1, ops=(3, 10), p_construct=0.0, share_groups=0.1,
+         falsy_model=0.15, inst_listeners=0.3)
 
 
 def add_late(sc, rng):
